@@ -213,14 +213,52 @@ Definition lookup (h : N -> N) (tab : list (option entry)) (id : N) : option ent
   | _ => None
   end.
 
+(* the lookup loop stops no later than the insertion loop: it is total and in bounds whenever that one is *)
+Lemma probe_get_total tab id : forall fuel idx,
+  ((exists p, probe nx fuel tab id idx = PFound p) \/ (exists p, probe nx fuel tab id idx = PEmpty p)) ->
+  (exists p, probe_get nx fuel tab id idx = PFound p) \/ (exists p, probe_get nx fuel tab id idx = PEmpty p).
+Proof.
+  induction fuel; intros idx H; cbn [probe probe_get] in *.
+  - destruct H as [[p H]|[p H]]; discriminate.
+  - destruct (tget tab (N.to_nat idx)) as [[[j v]|]|].
+    + destruct (j =? id); cbn [orb]; eauto. destruct (j =? 0); eauto.
+    + eauto.
+    + destruct H as [[p H]|[p H]]; discriminate.
+Qed.
+
+(* without a dictID-0 entry the two loops are the same loop *)
+Definition nozero tab : Prop := forall p i v, tget tab p = Some (Some (i, v)) -> i <> 0.
+
+Lemma probe_get_nozero tab id : nozero tab -> forall fuel idx, probe_get nx fuel tab id idx = probe nx fuel tab id idx.
+Proof.
+  intros Z. induction fuel; intros idx; cbn [probe probe_get]; auto.
+  destruct (tget tab (N.to_nat idx)) as [[[j v]|]|] eqn:E; auto.
+  apply Z in E. destruct (N.eqb_spec j 0); [congruence|]. rewrite orb_false_r. rewrite IHfuel. reflexivity.
+Qed.
+
+Lemma get_total h s id :
+  shape s -> (count_some (hs_tab s) < length (hs_tab s))%nat -> exists r, get h next_fixed s id = HOk r.
+Proof.
+  intros (S1 & S2 & S3) C. unfold get. rewrite S1. fold nx. fold (start h id).
+  destruct (probe_get_total (hs_tab s) id (N.to_nat size) (start h id)
+              (probe_total (hs_tab s) id (start h id) S2 C (get_index_lt h lg id))) as [[p P]|[p P]];
+    rewrite P; eauto.
+Qed.
+
 Lemma get_lookup h s id :
-  shape s -> (count_some (hs_tab s) < length (hs_tab s))%nat ->
+  shape s -> (count_some (hs_tab s) < length (hs_tab s))%nat -> nozero (hs_tab s) ->
   get h next_fixed s id = HOk (lookup h (hs_tab s) id).
 Proof.
-  intros (S1 & S2 & S3) C. unfold get, lookup. rewrite S1. fold nx. fold (start h id).
+  intros (S1 & S2 & S3) C Z. unfold get, lookup. rewrite S1. fold nx. fold (start h id).
+  rewrite probe_get_nozero by auto.
   destruct (probe_total (hs_tab s) id (start h id) S2 C (get_index_lt h lg id)) as [[p P]|[p P]];
-    unfold size in *; rewrite P; auto.
+    rewrite P; auto.
 Qed.
+
+(* a stored entry is what the map returns for its own dictID *)
+Lemma reach_lookup h tab p i v :
+  reach h tab -> tget tab (N.to_nat p) = Some (Some (i, v)) -> lookup h tab i = Some (i, v).
+Proof. intros R H. unfold lookup. rewrite (R p i v H), H. reflexivity. Qed.
 
 Lemma emplace_spec h s e :
   shape s -> hs_count s + 1 < hs_size s -> reach h (hs_tab s) ->
@@ -235,7 +273,7 @@ Proof.
   assert (TOT : forall id, (exists p, probe nx (N.to_nat size) (hs_tab s) id (start h id) = PFound p) \/
                            (exists p, probe nx (N.to_nat size) (hs_tab s) id (start h id) = PEmpty p)).
   { intro id. apply probe_total; auto. apply get_index_lt. }
-  destruct (TOT eid) as [[q P]|[q P]]; unfold size in *; rewrite P; fold size in *.
+  destruct (TOT eid) as [[q P]|[q P]]; rewrite P.
   - (* replace *)
     destruct (probe_found_sound _ _ _ _ _ P) as [v0 Hq].
     eexists; split; [reflexivity|]. simpl.
@@ -243,8 +281,9 @@ Proof.
                                        = probe nx fuel (hs_tab s) id idx)
       by (intros; eapply probe_upd_sameid; eauto).
     split; [|split; [|split; [|split]]]; try lia.
-    + repeat split; auto. rewrite tset_length; auto.
-      rewrite S3. f_equal. symmetry. eapply count_some_upd_full; eauto.
+    + unfold shape; simpl; split; [|split]; auto.
+      * rewrite tset_length; auto.
+      * rewrite S3. f_equal. symmetry. eapply count_some_upd_full; eauto.
     + intros p i v Hp. rewrite SAME.
       destruct (Nat.eq_dec (N.to_nat q) (N.to_nat p)) as [E|E].
       * rewrite <- E in Hp; rewrite tget_tset_same in Hp by (eapply tget_Some_lt; eauto).
@@ -270,7 +309,7 @@ Proof.
         inversion Hp; subst. apply N2Nat.inj in E. subst. apply probe_upd_empty_self; auto.
       * rewrite tget_tset_other in Hp by auto. apply probe_upd_empty_found; eauto. }
     split; [|split; [|split; [|split]]]; try lia; auto.
-    + repeat split; auto. rewrite CS, S3. lia.
+    + unfold shape; simpl; split; [|split]; auto. rewrite CS, S3. lia.
     + intros id. unfold lookup.
       destruct (N.eqb_spec eid id) as [E|E].
       * subst. rewrite probe_upd_empty_self by auto.
@@ -287,3 +326,224 @@ Proof.
            rewrite tget_tset_other in Hw by auto. apply R in Hw. congruence.
 Qed.
 End Probe.
+
+(* ------------------------------------------------------------------ re-insertion of a whole table *)
+Fixpoint spec_get_opt (l : list (option entry)) (id : N) (acc : option entry) : option entry :=
+  match l with
+  | [] => acc
+  | None :: t => spec_get_opt t id acc
+  | Some e :: t => spec_get_opt t id (if fst e =? id then Some e else acc)
+  end.
+
+Lemma emplace_all_spec lg h l : forall s,
+  shape lg s -> reach lg h (hs_tab s) -> hs_count s + N.of_nat (count_some l) + 1 < hs_size s ->
+  exists s', emplace_all h next_fixed l s = HOk s' /\ shape lg s' /\ reach lg h (hs_tab s') /\
+             hs_count s' <= hs_count s + N.of_nat (count_some l) /\
+             forall id, lookup lg h (hs_tab s') id = spec_get_opt l id (lookup lg h (hs_tab s) id).
+Proof.
+  induction l as [|[e|] t IH]; simpl; intros s S R C.
+  - exists s. split; [reflexivity|]. split; [auto|]. split; [auto|]. split; [lia|auto].
+  - destruct (emplace_spec lg h s e S) as (s1 & E & S1 & R1 & C1 & C1' & L1); auto; try lia.
+    rewrite E.
+    assert (SZ : hs_size s1 = hs_size s) by (destruct S as (a & _), S1 as (b & _); congruence).
+    destruct (IH s1 S1 R1) as (s2 & E2 & S2 & R2 & C2 & L2); try lia.
+    exists s2. split; [auto|]. split; [auto|]. split; [auto|]. split; [lia|].
+    intros id. rewrite L2, L1. reflexivity.
+  - apply IH; auto.
+Qed.
+
+Lemma spec_get_opt_unique l id e : forall acc,
+  (forall j x, tget l j = Some (Some x) -> fst x = id -> x = e) ->
+  (acc = Some e \/ exists j, tget l j = Some (Some e)) -> fst e = id ->
+  spec_get_opt l id acc = Some e.
+Proof.
+  induction l as [|[x|] t IH]; simpl; intros acc U H F.
+  - destruct H as [H|[j H]]; auto. destruct j; discriminate.
+  - apply IH; auto.
+    + intros j y Hj. apply (U (S j) y Hj).
+    + destruct (N.eqb_spec (fst x) id) as [E|E].
+      * left. f_equal. apply (U O x); auto.
+      * destruct H as [H|[j H]]; auto. destruct j; simpl in H; eauto. inversion H; subst. congruence.
+  - apply IH; auto.
+    + intros j y Hj. apply (U (S j) y Hj).
+    + destruct H as [H|[j H]]; auto. destruct j; simpl in H; eauto. discriminate.
+Qed.
+
+Lemma spec_get_opt_absent l id : forall acc,
+  (forall j x, tget l j = Some (Some x) -> fst x <> id) -> spec_get_opt l id acc = acc.
+Proof.
+  induction l as [|[x|] t IH]; simpl; intros acc U; auto.
+  - rewrite IH by (intros j y Hj; apply (U (S j) y Hj)).
+    destruct (N.eqb_spec (fst x) id) as [E|E]; auto. exfalso. apply (U O x); auto.
+  - apply IH. intros j y Hj. apply (U (S j) y Hj).
+Qed.
+
+(* the slot-order list of a well-formed table denotes the same map as the probing loop *)
+Lemma table_entries_lookup lg h tab id :
+  length tab = N.to_nat (2 ^ lg) -> (count_some tab < length tab)%nat -> reach lg h tab ->
+  spec_get_opt tab id None = lookup lg h tab id.
+Proof.
+  intros L C R. unfold lookup.
+  destruct (probe_total lg tab id (start lg h id) L C (get_index_lt h lg id)) as [[p P]|[p P]]; rewrite P.
+  - destruct (probe_found_sound _ _ _ _ _ _ P) as [v Hv]. rewrite Hv.
+    apply spec_get_opt_unique; auto.
+    + intros j [i w] Hj F. simpl in F. subst i.
+      assert (Hj' : tget tab (N.to_nat (N.of_nat j)) = Some (Some (id, w))) by (rewrite Nat2N.id; auto).
+      apply R in Hj'. rewrite P in Hj'. inversion Hj'; subst. rewrite Nat2N.id in Hv. congruence.
+    + right. eauto.
+  - apply spec_get_opt_absent. intros j [i w] Hj F. simpl in F. subst i.
+    assert (Hj' : tget tab (N.to_nat (N.of_nat j)) = Some (Some (id, w))) by (rewrite Nat2N.id; auto).
+    apply R in Hj'. congruence.
+Qed.
+
+(* ------------------------------------------------------------------ the empty table *)
+Lemma tget_repeat_none j x : forall n, tget (repeat (@None entry) n) j = Some (Some x) -> False.
+Proof. induction j; destruct n; simpl; intros; try discriminate; eauto. Qed.
+
+Lemma empty_shape lg : shape lg (empty_set (2 ^ lg)).
+Proof.
+  unfold shape, empty_set; simpl. split; [|split]; auto.
+  - apply repeat_length.
+  - rewrite count_some_repeat. reflexivity.
+Qed.
+
+Lemma empty_reach lg h : reach lg h (hs_tab (empty_set (2 ^ lg))).
+Proof. intros p i v H. simpl in H. exfalso. eapply tget_repeat_none; eauto. Qed.
+
+Lemma empty_lookup lg h id : lookup lg h (hs_tab (empty_set (2 ^ lg))) id = None.
+Proof.
+  unfold lookup. destruct (probe _ _ _ _ _) eqn:P; auto.
+  apply probe_found_sound in P. destruct P as [v P]. simpl in P. exfalso. eapply tget_repeat_none; eauto.
+Qed.
+
+(* ------------------------------------------------------------------ ZSTD_DDictHashSet_addDDict *)
+(* [inv h s m]: s is a well-formed table (size a power of two >= 64, at most size/4 entries, every entry reachable)
+   that denotes the finite map m *)
+Definition inv (h : N -> N) (s : hset) (m : N -> option entry) : Prop :=
+  exists lg, 6 <= lg /\ shape lg s /\ reach lg h (hs_tab s) /\ 4 * hs_count s <= hs_size s /\
+             forall id, lookup lg h (hs_tab s) id = m id.
+
+Lemma pow2_ge64 lg : 6 <= lg -> exists k, 2 ^ lg = 4 * k /\ 16 <= k.
+Proof.
+  intros H. exists (2 ^ (lg - 2)). replace lg with (2 + (lg - 2)) at 1 by lia. rewrite N.pow_add_r.
+  split; [reflexivity|]. change 16 with (2 ^ 4). apply N.pow_le_mono_r; lia.
+Qed.
+
+Lemma create_inv h : inv h create (fun _ => None).
+Proof.
+  exists 6. unfold create, HASHSET_BASE_SIZE. change 64 with (2 ^ 6).
+  split; [lia|]. split; [apply empty_shape|]. split; [apply empty_reach|]. split.
+  - simpl. lia.
+  - intros. apply empty_lookup.
+Qed.
+
+Lemma add_spec h s m e :
+  inv h s m -> exists s', add h next_fixed s e = HOk s' /\ inv h s' (fun id => if fst e =? id then Some e else m id).
+Proof.
+  intros (lg & G & S & R & C & L).
+  destruct (pow2_ge64 lg G) as (k & K & K16).
+  pose proof S as (S1 & S2 & S3).
+  unfold add, over_load, HASHSET_COUNT_MULT, HASHSET_SIZE_MULT.
+  assert (NZ : hs_size s <> 0) by lia.
+  destruct (N.eqb_spec (hs_count s * 4 / hs_size s * 3) 0) as [Z|Z]; simpl.
+  - (* below the load factor: plain emplace *)
+    assert (hs_count s * 4 / hs_size s = 0) by lia.
+    apply N.div_small_iff in H; auto.
+    destruct (emplace_spec lg h s e S) as (s1 & E & S' & R' & C1 & C1' & L1); auto; try lia.
+    exists s1. split; auto. exists lg. split; [auto|]. split; [auto|]. split; [auto|]. split.
+    + destruct S' as (a & _). lia.
+    + intros id. rewrite L1, L. reflexivity.
+  - (* at the load factor: double the table, re-insert, then emplace *)
+    assert (hs_size s <= hs_count s * 4).
+    { destruct (N.lt_ge_cases (hs_count s * 4) (hs_size s)) as [LT|GE]; auto.
+      apply N.div_small in LT. lia. }
+    unfold expand, HASHSET_RESIZE_FACTOR.
+    assert (SZ2 : hs_size s * 2 = 2 ^ (lg + 1)) by (rewrite N.pow_add_r, S1; simpl; lia).
+    rewrite SZ2.
+    assert (CS : (count_some (hs_tab s) < length (hs_tab s))%nat) by lia.
+    destruct (emplace_all_spec (lg + 1) h (hs_tab s) (empty_set (2 ^ (lg + 1))) (empty_shape _) (empty_reach _ _))
+      as (s1 & E1 & S1' & R1' & C1 & L1).
+    { simpl. rewrite <- SZ2. lia. }
+    rewrite E1.
+    pose proof S1' as (T1 & T2 & T3).
+    destruct (emplace_spec (lg + 1) h s1 e S1') as (s2 & E2 & S2' & R2' & C2 & C2' & L2); auto.
+    { simpl in C1. rewrite T1, <- SZ2. lia. }
+    exists s2. split; auto. exists (lg + 1). split; [lia|]. split; [auto|]. split; [auto|]. split.
+    + destruct S2' as (a & _). rewrite a, <- SZ2. simpl in C1. lia.
+    + intros id. rewrite L2, L1, empty_lookup, (table_entries_lookup lg h), L; auto.
+Qed.
+
+Lemma add_all_spec h l : forall s m,
+  inv h s m -> exists s', add_all h next_fixed l s = HOk s' /\ inv h s' (fun id => spec_get l id (m id)).
+Proof.
+  induction l as [|e t IH]; simpl; intros s m I.
+  - exists s. split; auto.
+  - destruct (add_spec h s m e I) as (s1 & E & I1). rewrite E.
+    destruct (IH s1 _ I1) as (s2 & E2 & I2). exists s2. split; auto.
+Qed.
+
+Lemma spec_get_In l id : forall acc e, spec_get l id acc = Some e -> In e l \/ acc = Some e.
+Proof.
+  induction l as [|x t IH]; simpl; intros acc e H; auto.
+  apply IH in H. destruct H as [H|H]; auto. destruct (fst x =? id); auto. inversion H; auto.
+Qed.
+
+Lemma inv_get_total h s m id : inv h s m -> exists r, get h next_fixed s id = HOk r.
+Proof.
+  intros (lg & G & S & R & C & L).
+  destruct (pow2_ge64 lg G) as (k & K & K16). pose proof S as (S1 & S2 & S3).
+  eapply get_total; eauto. lia.
+Qed.
+
+Lemma inv_get h s l id :
+  inv h s (fun id => spec_get l id None) -> Forall (fun e => fst e <> 0) l ->
+  get h next_fixed s id = HOk (spec_get l id None).
+Proof.
+  intros (lg & G & S & R & C & L) NZ. rewrite <- L.
+  destruct (pow2_ge64 lg G) as (k & K & K16). pose proof S as (S1 & S2 & S3).
+  apply get_lookup; auto; [lia|].
+  intros p i v H.
+  assert (H' : tget (hs_tab s) (N.to_nat (N.of_nat p)) = Some (Some (i, v))) by (rewrite Nat2N.id; auto).
+  pose proof (reach_lookup lg h _ _ _ _ R H') as LK. rewrite L in LK.
+  apply spec_get_In in LK. destruct LK as [LK|LK]; [|discriminate].
+  rewrite Forall_forall in NZ. apply NZ in LK. exact LK.
+Qed.
+
+(* ------------------------------------------------------------------ theorems *)
+(* For every hash function and every insertion sequence (any dictIDs, 0 included): no probed index is outside the
+   table (no [HOobRead]), every probing loop - insertion and lookup - ends within tableSize steps (no [HNoTerm]),
+   the table is never full (no [HFull]). *)
+Theorem ddict_hashset_in_bounds : forall (h : N -> N) (l : list entry),
+  exists s, add_all h next_fixed l create = HOk s /\ hs_count s < hs_size s /\
+            length (hs_tab s) = N.to_nat (hs_size s) /\
+            forall id, exists r, get h next_fixed s id = HOk r.
+Proof.
+  intros h l. destruct (add_all_spec h l create _ (create_inv h)) as (s & E & I).
+  pose proof I as (lg & G & S & R & C & L).
+  exists s. split; auto. destruct (pow2_ge64 lg G) as (k & K & K16). destruct S as (S1 & S2 & S3).
+  split; [lia|]. split; [congruence|]. intros id. eapply inv_get_total; eauto.
+Qed.
+
+(* ... and for non-zero dictIDs the set is the finite map dictID -> DDict, last insertion wins. *)
+Theorem ddict_hashset_finite_map : forall (h : N -> N) (l : list entry) (s : hset) (id : N),
+  Forall (fun e => fst e <> 0) l ->
+  add_all h next_fixed l create = HOk s -> get h next_fixed s id = HOk (spec_get l id None).
+Proof.
+  intros h l s id NZ E. destruct (add_all_spec h l create _ (create_inv h)) as (s' & E' & I).
+  rewrite E in E'. inversion E'; subst. apply inv_get; auto.
+Qed.
+
+(* Before fix 504f7c2 (idx &= mask; idx++): two dictIDs whose XXH64 falls in the last slot of the 64-entry table
+   make the second insertion read ddictPtrTable[64]. *)
+Theorem ddict_hashset_oob_refuted :
+  get_index xxh_hash 64 3 = 63 /\ get_index xxh_hash 64 47 = 63 /\
+  add_all xxh_hash next_prefix [(3, 0); (47, 1)] create = HOobRead 64.
+Proof. vm_compute. auto. Qed.
+
+(* the same two insertions with the current probing step land in slots 63 and 0 *)
+Example ddict_hashset_wrap_example :
+  match add_all xxh_hash next_fixed [(3, 0); (47, 1)] create with
+  | HOk s => tget (hs_tab s) 63 = Some (Some (3, 0)) /\ tget (hs_tab s) 0 = Some (Some (47, 1))
+  | _ => False
+  end.
+Proof. vm_compute. auto. Qed.
